@@ -78,7 +78,7 @@ def main(tier, seed):
         for label, maxn, rich, nseeds, every in plans:
             res = engine.tlc_replay(rep, pool, 'MC_Gen', pipe_worker,
                                     consts=dict(MaxN=maxn, NumInsts={1, 2}, Perturb=False, Generate=False,
-                                                TypesUsed={'ha', 'sm', 'hr', 'spa'}, Rich=rich),
+                                                TypesUsed={'ha', 'sm', 'hr', 'spa'}, Rich=rich, **genprops.count_sets(maxn)),
                                     spec='MSpec', invariants=['ParserOK', 'FamilySound', 'ExportArgs'], label=label,
                                     on_result=on_result, export_filter=mk_flt(nseeds, every), timeout=3000)
             rep.notes.append('%s: %d legal argument vectors, every %d-th driven through generator and solver' % (label, res['exports'], every))
